@@ -19,7 +19,8 @@ CONSTANTS
     JumpW,          \* extra weights a crafted vertex may claim
     Profile,        \* which transaction universe is used
     MaxCraft,       \* how many crafted vertices the world may contain
-    MaxToggle       \* how many trust / untrust steps a behaviour may contain
+    MaxToggle,      \* how many trust / untrust steps a behaviour may contain
+    WithCancel      \* TRUE: the caller of a proposal / delivery may go away while tips are validated (bounded model only)
 
 \* The transaction universes.  Amounts are small; Supply = 10 goes to GR.
 TrxSingle ==
@@ -92,7 +93,8 @@ ProposePre(n, t) ==
 
 ProposeCommit(n, op) ==
     /\ op \in inflight[n] /\ op.k = "P"
-    /\ \E o \in ProposeCommitOutcomes(book[n], n, op.t, Len(vtx) + 1) :
+    /\ \E o \in (IF WithCancel THEN ProposeCancelledOutcomes(book[n], n, op.t, Len(vtx) + 1)
+                ELSE ProposeCommitOutcomes(book[n], n, op.t, Len(vtx) + 1)) :
          /\ book' = [book EXCEPT ![n] = o.b]
          /\ vtx' = IF o.res = "ok" THEN Append(vtx, o.new[1]) ELSE vtx
     /\ H([op |-> "commit", k |-> KeyP(n, op.t), id |-> Len(vtx) + 1])
@@ -111,8 +113,9 @@ DeliverPre(n, v) ==
 
 DeliverCommit(n, op) ==
     /\ op \in inflight[n] /\ op.k = "D"
-    /\ LET o == DeliverCommitOutcome(book[n], op.v, op.rep) IN
-       book' = [book EXCEPT ![n] = o.b]
+    /\ \E o \in (IF WithCancel THEN DeliverCancelledOutcomes(book[n], op.v, op.rep)
+                ELSE {DeliverCommitOutcome(book[n], op.v, op.rep)}) :
+         book' = [book EXCEPT ![n] = o.b]
     /\ inflight' = [inflight EXCEPT ![n] = @ \ {op}]
     /\ H([op |-> "commit", k |-> KeyD(n, op.v), id |-> 0])
     /\ UNCHANGED vtx
